@@ -184,6 +184,7 @@ ConcCodes(e) ==
 LoadCodes(e) ==
   {<<"C12.octets", k>> : k \in {j \in 1..Len(e.calls) : e.calls[j][2] # e.alone[e.calls[j][1]]}}
   \cup {<<"C12.failed", k>> : k \in {j \in 1..Len(e.calls) : e.calls[j][3] = 1 \/ e.calls[j][4] = 1}}
+  \cup {<<"C12.errors", k>> : k \in {j \in 1..Len(e.errs) : e.errs[j][1] # e.errs[j][2]}}   \* a failing call fails as it does alone
   \cup UNION {{<<"C12.value", k>> : c \in SameCodes([n |-> e.pairs[k].v.n, T |-> e.T], e.pairs[k].v, e.pairs[k].r)}
               : k \in 1..Len(e.pairs)}
 (* the package-level variables of the library and who may assign to them: all mutable *)
